@@ -83,3 +83,108 @@ Definition permute_col (p : list nat) (c : column) : column :=
 
 Definition is_perm (p : list nat) (n : nat) : Prop :=
   length p = n /\ NoDup p /\ forall i, In i p -> (i < n)%nat.
+
+(* ---------------------------------------------------------------- *)
+(* numpy.vectorize(func, otypes=[t]) — the dtype is fixed by the rule's declared result
+   type; [None] = no otypes (dtype inferred from the first row's result, the behaviour of
+   functions_loader._vectorize_func before the repair and still for undeclared types) *)
+
+Definition vectorize_gen (ot : option dtype) (f : list val -> res val) (n : nat) (args : list column)
+  : res column :=
+  let rows := rows_of n args in
+  match ot with
+  | Some t => do vs <- mapM_res f rows; pack t vs
+  | None => vectorize f n args
+  end.
+
+Lemma mapM_res_nth {A B} (f : A -> res B) l ys :
+  mapM_res f l = Ok ys -> forall i x, nth_error l i = Some x ->
+  exists y, f x = Ok y /\ nth_error ys i = Some y.
+Proof.
+  revert ys. induction l as [|a r IH]; intros ys H i x Hi; [destruct i; discriminate|].
+  cbn in H. destruct (f a) as [b|] eqn:Ea; [|discriminate]. cbn in H.
+  destruct (mapM_res f r) as [bs|] eqn:Er; [|discriminate]. cbn in H. injection H as <-.
+  destruct i as [|i]; cbn in *.
+  - injection Hi as <-. exists b. auto.
+  - apply (IH bs eq_refl i x Hi).
+Qed.
+
+Lemma mapM_res_length {A B} (f : A -> res B) l ys : mapM_res f l = Ok ys -> length ys = length l.
+Proof.
+  revert ys. induction l as [|a r IH]; intros ys H; cbn in H.
+  - injection H as <-. reflexivity.
+  - destruct (f a); [|discriminate]. cbn in H. destruct (mapM_res f r) eqn:E; [|discriminate].
+    cbn in H. injection H as <-. cbn. f_equal. apply IH. reflexivity.
+Qed.
+
+Lemma pack_inv t vs c : pack t vs = Ok c ->
+  col_dtype c = t /\
+  exists ws, mapM_res (cast t) vs = Ok ws /\ col_vals c = ws.
+Proof.
+  assert (G : forall (A : Type) (un : val -> res A) (mk : A -> val) tt,
+            (forall w a, un w = Ok a -> w = mk a) ->
+            forall l, mapM_res (fun v => do w <- cast tt v; un w) vs = Ok l ->
+            mapM_res (cast tt) vs = Ok (map mk l)).
+  { intros A un mk tt Hun. induction vs as [|v r IH]; intros l H; cbn in *.
+    - injection H as <-. reflexivity.
+    - destruct (cast tt v) as [w|] eqn:Ec; [|discriminate]. cbn in H.
+      destruct (un w) as [a|] eqn:Eu; [|discriminate]. cbn in H.
+      destruct (mapM_res (fun v0 => do w0 <- cast tt v0; un w0) r) as [l'|] eqn:Er; [|discriminate].
+      cbn in H. injection H as <-. rewrite (IH l' eq_refl). cbn. rewrite (Hun w a Eu). reflexivity. }
+  unfold pack. destruct t; try discriminate.
+  - destruct (mapM_res (fun v => do w <- cast TInt v; un_int w) vs) as [l|] eqn:E; [|discriminate].
+    cbn. intro H. injection H as <-. split; [reflexivity|]. exists (map VInt l). split; [|reflexivity].
+    apply (G Z un_int VInt TInt); [|exact E]. intros w a Hw. destruct w; try discriminate. cbn in Hw. congruence.
+  - destruct (mapM_res (fun v => do w <- cast TFloat v; un_float w) vs) as [l|] eqn:E; [|discriminate].
+    cbn. intro H. injection H as <-. split; [reflexivity|]. exists (map VFloat l). split; [|reflexivity].
+    apply (G xq un_float VFloat TFloat); [|exact E]. intros w a Hw. destruct w; try discriminate. cbn in Hw. congruence.
+  - destruct (mapM_res (fun v => do w <- cast TBool v; un_bool w) vs) as [l|] eqn:E; [|discriminate].
+    cbn. intro H. injection H as <-. split; [reflexivity|]. exists (map VBool l). split; [|reflexivity].
+    apply (G bool un_bool VBool TBool); [|exact E]. intros w a Hw. destruct w; try discriminate. cbn in Hw. congruence.
+  - destruct (mapM_res (fun v => do w <- cast TDate v; un_date w) vs) as [l|] eqn:E; [|discriminate].
+    cbn. intro H. injection H as <-. split; [reflexivity|]. exists (map VDate l). split; [|reflexivity].
+    apply (G Z un_date VDate TDate); [|exact E]. intros w a Hw. destruct w; try discriminate. cbn in Hw. congruence.
+Qed.
+
+(* with a declared dtype, the column's dtype is the declared one whatever the data, and every
+   cell is the rule's value for that row cast to the declared type *)
+Theorem vectorize_declared t f n args c :
+  vectorize_gen (Some t) f n args = Ok c ->
+  col_dtype c = t /\
+  forall i row, nth_error (rows_of n args) i = Some row ->
+    exists v w, f row = Ok v /\ cast t v = Ok w /\ nth_error (col_vals c) i = Some w.
+Proof.
+  unfold vectorize_gen. destruct (mapM_res f (rows_of n args)) as [vs|] eqn:E; [|discriminate].
+  cbn. intro H. destruct (pack_inv _ _ _ H) as (Hd & ws & Hws & Hc). split; [exact Hd|].
+  intros i row Hi. destruct (mapM_res_nth _ _ _ E i row Hi) as (v & Hv & Hn).
+  destruct (mapM_res_nth _ _ _ Hws i v Hn) as (w & Hw & Hnw). exists v, w. rewrite Hc. auto.
+Qed.
+
+(* the cast is the identity when the rule returns a value of its declared type ... *)
+Theorem cast_same_type t v : type_of v = t -> t <> TOther -> cast t v = Ok v.
+Proof. intros <- Hn. destruct v; cbn in *; try reflexivity; congruence. Qed.
+
+(* ... and int / bool results of a float rule are widened without changing the number *)
+Theorem cast_widen_lossless v :
+  (exists z, v = VInt z /\ cast TFloat v = Ok (VFloat (xz z)))
+  \/ (exists b, v = VBool b /\ cast TFloat v = Ok (VFloat (xz (if b then 1 else 0)%Z)))
+  \/ (forall z, v <> VInt z) /\ (forall b, v <> VBool b).
+Proof.
+  destruct v; try (right; right; split; intros; discriminate).
+  - left. eauto.
+  - right. left. eauto.
+Qed.
+
+(* without a declared dtype the first row decides: a rule returning the int literal 0 on the first
+   row and 0.35 on the second yields the int column [0; 0] (the value 0.35 is truncated) *)
+Definition unstable_rule (row : list val) : res val :=
+  match row with
+  | [VBool true] => Ok (VInt 0%Z)
+  | _ => Ok (VFloat (XFin (qfrac 7 20)))
+  end.
+
+Theorem vectorize_inferred_refuted :
+  vectorize_gen None unstable_rule 2 [CBool [true; false]] = Ok (CInt [0%Z; 0%Z])
+  /\ vectorize_gen None unstable_rule 2 [CBool [false; true]] = Ok (CFloat [XFin (qfrac 7 20); xz 0])
+  /\ vectorize_gen (Some TFloat) unstable_rule 2 [CBool [true; false]] = Ok (CFloat [xz 0; XFin (qfrac 7 20)]).
+Proof. vm_compute. repeat split; reflexivity. Qed.
